@@ -33,6 +33,10 @@ class PrecipitateModel (PrecipitateBase):
 
         self.RdrivingForceIndex = np.zeros(len(self.phases), dtype=np.int32)
         self.dissolutionIndex = np.zeros(len(self.phases), dtype=np.int32)
+
+        #Temperature and equilibrium compositions of the binary lookup table (set in _createLookupBinary)
+        self._lookupTemp = None
+        self._lookupXEq = None
         
     def reset(self):
         '''
@@ -237,6 +241,10 @@ class PrecipitateModel (PrecipitateBase):
             else:
                 self.PSDXalpha[p] = np.zeros((self.PBM[p].bins + 1,1))
                 self.PSDXbeta[p] = np.zeros((self.PBM[p].bins + 1,1))
+
+        #Remember the temperature that the table (and the equilibrium compositions) were computed at
+        self._lookupTemp = T
+        self._lookupXEq = (xEqAlpha, xEqBeta)
 
         return xEqAlpha, xEqBeta
     
@@ -531,12 +539,13 @@ class PrecipitateModel (PrecipitateBase):
         #Update equilibrium interfacial compositions
         #This will be override if _createLookupBinary is called
         T = Y.temperature[0]
-        self.dTemp += T - self.pData.temperature[self.pData.n]
+        #Difference between the current temperature and the temperature of the lookup table in use
+        self.dTemp = T - self._lookupTemp
         if np.abs(self.dTemp) > self.constraints.maxTempChange:
             xEqAlpha, xEqBeta = self._createLookupBinary(T)
-        else:
-            xEqAlpha, xEqBeta = np.array([self.pData.xEqAlpha[self.pData.n]]), np.array([self.pData.xEqBeta[self.pData.n]])
             self.dTemp = 0
+        else:
+            xEqAlpha, xEqBeta = np.array(self._lookupXEq[0]), np.array(self._lookupXEq[1])
         Y.xEqAlpha = xEqAlpha
         Y.xEqBeta = xEqBeta
         
@@ -640,11 +649,12 @@ class PrecipitateModel (PrecipitateBase):
                 if self.numberOfElements == 1:
                     if addedIndices is None:
                         #This is very slow to do
-                        self._createLookupBinary(self.pData.temperature[self.pData.n])
+                        #New size classes only: the table stays at the temperature it was computed at
+                        self._createLookupBinary(self._lookupTemp)
                     else:
                         self.PSDXalpha[p] = np.concatenate((self.PSDXalpha[p], np.zeros((self.PBM[p].bins+1 - len(self.PSDXalpha[p]),1))))
                         self.PSDXbeta[p] = np.concatenate((self.PSDXbeta[p], np.zeros((self.PBM[p].bins+1 - len(self.PSDXbeta[p]),1))))
-                        self.PSDXalpha[p][addedIndices:,0], self.PSDXbeta[p][addedIndices:,0] = self.therm.getInterfacialComposition(self.pData.temperature[self.pData.n], self.particleGibbs(self.PBM[p].PSDbounds[addedIndices:], self.precipitateParameters[p].phase), precPhase=self.precipitateParameters[p].phase)
+                        self.PSDXalpha[p][addedIndices:,0], self.PSDXbeta[p][addedIndices:,0] = self.therm.getInterfacialComposition(self._lookupTemp, self.particleGibbs(self.PBM[p].PSDbounds[addedIndices:], self.precipitateParameters[p].phase), precPhase=self.precipitateParameters[p].phase)
                 else:
                     self.PSDXalpha[p] = np.zeros((self.PBM[p].bins + 1, self.numberOfElements))
                     self.PSDXbeta[p] = np.zeros((self.PBM[p].bins + 1, self.numberOfElements))
